@@ -121,8 +121,9 @@ def releaseArgs (fs : FS) (fuel : Nat) (root : Name) : Option (List Name) :=
 
 /-- the file system that holds, under root/gen/c, exactly the outputs of a plan,
 enumerated in plan order (any other enumeration gives the same `releaseArgs`:
-`findFiles_perm_invariant`) -/
+`findFiles_perm_invariant`).  main.go writeFile creates gen/c with the first output:
+after an empty plan the directory does not exist and genrelease fails. -/
 def fsOfPlan (root : Name) (plan : List (Name × List Name)) : FS :=
-  fun p => if p == gencDir root then some (plan.map (fun e => ⟨flatC e.1, false⟩)) else none
+  fun p => if p == gencDir root && !plan.isEmpty then some (plan.map (fun e => ⟨flatC e.1, false⟩)) else none
 
 end WuffsVerif.Det
